@@ -837,7 +837,7 @@ func init() {
 		NotCov:      "end-to-end history statements; the verifier itself is C01.",
 		Assumptions: commonAssumptions})
 	register(&Def{ID: "C21", Run: c21,
-		Explain:     "Decides on SSA: every store made by the four ack/clear handlers is dominated by equality of the named seqno with the stored message's seqno (server: *recvSent==ack → partner.outAcked, recv.Seqno==clear → drop, *recvSent==clear → partner.recvClear, each also behind current-epoch / still-registered / partner-attached; client: out.Seqno==ack, recv.Seqno==clear); the client schedules an AckMsg only for a message whose recvProcessed is true, which only ClientPeerRef.Recv sets; outAcked/recvClear are set only by their handlers (WHO); server state only under Server.mtx and client tracker state only under its broadcast lock (LOCKSET). (MUSTCALL) the client's open handler discards the previous epoch's inbox and transmit flags in the critical section that records the new epoch. Signaling codec sanity: each oneof arm is encoded under and decoded from its own schema number (a clear never travels as an ack); EQUIV of SignalPeer.",
+		Explain:     "Decides on SSA: every store made by the four ack/clear handlers is dominated by equality of the named seqno with the stored message's seqno (server: *recvSent==ack → partner.outAcked, recv.Seqno==clear → drop, *recvSent==clear → partner.recvClear, each also behind current-epoch / still-registered / partner-attached; client: out.Seqno==ack, recv.Seqno==clear); the client schedules an AckMsg only for a message whose recvProcessed is true, which only ClientPeerRef.Recv sets; outAcked/recvClear are set only by their handlers (WHO); server state only under Server.mtx and client tracker state only under its broadcast lock (LOCKSET). (MUSTCALL) the client's open handler discards the previous epoch's inbox and transmit flags in the critical section that records the new epoch. Signaling codec sanity: each oneof arm is encoded under and decoded from its own schema number (a clear never travels as an ack); EQUIV of SignalPeer. (OWNCHECK) ClientPeerRef.Send empties the outgoing slot for an acknowledgement only on paths where out.Seqno == its own seqno; the relay's handlers are identified by the read loop's dispatch.",
 		NotCov:      "the end-to-end history statement (ack observed ⇒ partner received) — needs a model of both sides and the transport.",
 		Assumptions: commonAssumptions})
 }
